@@ -12,6 +12,7 @@ func init() {
 			"(C19-b) each uniqueness test dominates the store it protects, on the same key; " +
 			"(C19-c) the bulk loader visits every object, the same-owner label check runs for every pod and compares labels by presence in both directions, the single-policy priority case is validated outside the comparison callback. " +
 			"(C19-all) in the bulk loader every clause of the kind switch that inserts at all inserts its object on every path: the conflict checks see only what was inserted. " +
+			"(C19-range) a positive answer of HasValidPriority implies both bounds of [MinANPPriority, MaxANPPriority] (formula over its exits); (C19-labels) the comparison that rejects pods of one owner with different labels skips no key of either label map. " +
 			"NOT decided: that a comparison sort evaluates less() on at least one equal pair and at least once per element for n >= 2 (a fact about an execution of sort.Slice; recorded as an assumption)."
 		rules.ConflictDetectors(p, r, "C19-a")
 		rules.CheckBeforeWrite(p, r, "C19-b")
@@ -20,5 +21,7 @@ func init() {
 		r.Assume("sort.Slice (any correct comparison sort) calls less on some pair of equal-priority elements when two exist, and on every element when n >= 2")
 		rules.EngineBuiltForEveryInput(p, r, "C19-d")
 		rules.BulkLoaderInsertsEveryObject(p, r, "C19-all")
+		rules.PriorityRangeBothBounds(p, r, "C19-range")
+		rules.OwnerLabelsComparedCompletely(p, r, "C19-labels")
 	})
 }
